@@ -437,6 +437,9 @@ def _read_o_file(cfg_path, name, needed_keys, intern, version, im):
                 w2 = specs[4]
                 T = intern[name]["T"]
                 start_read = intern[name]["spec"][quarks][off][w][w2]["start"]
+                # check, if the correlator is in fact printed completely
+                if (start_read + T + 1 > len(lines)):
+                    raise Exception("EOF before end of correlator data! Maybe " + file + " is corrupted?")
                 deltas = []
                 for line in lines[start_read:start_read + T]:
                     floats = list(map(float, line.split()))
@@ -592,6 +595,9 @@ def _read_chunk(chunk, gauge_line, cfg_sep, start_read, T, corr_line, b2b, patte
     for li in chunk[corr_line + 1:corr_line + 6 + b2b]:
         found_pat += li
     if re.search(pattern, found_pat):
+        # check, if the correlator is in fact printed completely
+        if (start_read + T + 1 > len(chunk)):
+            raise Exception("EOF before end of correlator data! Problem with chunk around line ", gauge_line)
         for t, line in enumerate(chunk[start_read:start_read + T]):
             floats = list(map(float, line.split()))
             data.append(floats[im + 1 - single])
